@@ -267,18 +267,18 @@ fn main() {
         });
     }
     // ---- C16: the build-script entry point (BuildSystem::run_generation: probe, generation, cleanup) with foreign files around
-    for mode in ["none", "zod"] {
-        rep.case("build_script_run_touches_only_reserved_names", &format!("mode={}", mode), &|| {
-            let proj = root.join(format!("build_{}", mode));
+    for (mode, force) in [("none", true), ("zod", true), ("none", false), ("zod", false)] {
+        rep.case("build_script_run_touches_only_reserved_names", &format!("mode={} force={} (three runs: the later ones hit the cache unless forced)", mode, force), &|| {
+            let proj = root.join(format!("build_{}_{}", mode, force));
             let _ = fs::remove_dir_all(&proj);
             let src = proj.join("src-tauri/src");
             fs::create_dir_all(&src).map_err(|e| e.to_string())?;
             fs::write(src.join("lib.rs"), format!("{}{}#[tauri::command]\npub fn get_user(id: i32) -> Result<User, String> {{ todo!() }}\n", HDR, st("User", &[("id", "i32")]))).map_err(|e| e.to_string())?;
             let out = proj.join("src/generated");
             fs::create_dir_all(out.join("notes")).map_err(|e| e.to_string())?;
-            fs::write(proj.join("tauri.conf.json"), format!("{{\n  \"productName\": \"demo\",\n  \"plugins\": {{ \"typegen\": {{ \"projectPath\": {:?}, \"outputPath\": {:?}, \"validationLibrary\": {:?}, \"force\": true }} }}\n}}\n",
-                proj.join("src-tauri").to_string_lossy(), out.to_string_lossy(), mode)).map_err(|e| e.to_string())?;
-            let decoys = ["helpers.ts", "commands.test.ts", "index.spec.ts", "types.mock.ts", "bindings.helpers.ts", "mytypes.ts", "types.tsx", "README.md", ".write_test", ".gitkeep", "types.ts.bak", "notes/keep.txt"];
+            fs::write(proj.join("tauri.conf.json"), format!("{{\n  \"productName\": \"demo\",\n  \"plugins\": {{ \"typegen\": {{ \"projectPath\": {:?}, \"outputPath\": {:?}, \"validationLibrary\": {:?}, \"force\": {} }} }}\n}}\n",
+                proj.join("src-tauri").to_string_lossy(), out.to_string_lossy(), mode, force)).map_err(|e| e.to_string())?;
+            let decoys = ["helpers.ts", "commands.test.ts", "index.spec.ts", "types.mock.ts", "bindings.helpers.ts", "mytypes.ts", "types.tsx", "README.md", "MyHelpers.ts", "Types.ts", "API.md", ".write_test", ".gitkeep", "types.ts.bak", "notes/keep.txt"];
             for d in decoys { fs::write(out.join(d), format!("foreign {}", d)).map_err(|e| e.to_string())?; }
             fs::write(out.join("models.ts"), "// stale generated file").map_err(|e| e.to_string())?;
             let conf_before = fs::read_to_string(proj.join("tauri.conf.json")).unwrap_or_default();
@@ -287,7 +287,7 @@ fn main() {
             let cwd = std::env::current_dir().map_err(|e| e.to_string())?;
             std::env::set_current_dir(&proj).map_err(|e| e.to_string())?;
             let mut result = Ok(());
-            for _ in 0..2 { if let Err(e) = tauri_typegen::BuildSystem::new(false, false).run_generation() { result = Err(format!("run_generation returned Err: {}", e)); break; } }
+            for _ in 0..3 { if let Err(e) = tauri_typegen::BuildSystem::new(false, false).run_generation() { result = Err(format!("run_generation returned Err: {}", e)); break; } }
             let _ = std::env::set_current_dir(&cwd);
             result?;
             let after = snapshot(&out);
